@@ -991,7 +991,7 @@ def explore(tier, seed, rng, wd, violations):
     t0 = time.time()
     stats = {k: 0 for k in ("P_prime", "P_composite", "P_rho", "P_spsp2", "P_slpsp", "A_valid", "is_perfect_square_wrong")}
     samples = []
-    budget = 90 if tier == "quick" else 600      # seconds per harness request before the watchdog fires
+    budget = 60 if tier == "quick" else 600      # seconds per harness request before the watchdog fires
     std2 = ["c++14", "c++17", "c++20"][seed % 3]
     configs = [("clang++-14", std2, "c" + std2[-2:]), ("g++", "c++14", "g14")]
     if tier == "thorough":
